@@ -275,12 +275,12 @@ SRV_WRAPS = ["-Wl,--wrap=send,--wrap=epoll_wait,--wrap=clock_gettime"]
 PROPS["C13"] = {
     "level": "fault_enumeration",
     "engine": "opfuzz + fault injection",
-    "level_text": "three paired Server clients per case; the harness owns send() on the server-side descriptors (--wrap=send) and applies a generated fault script (would-block, partial counts incl. 1-byte partials, full; adversarial shapes) on top of whatever the kernel does with a small send buffer, owns the clock and epoll_wait, and runs generated actions (writes of 1..5000 pattern bytes, suspend, resume, peer reads and writes, queries) from a 1 ms driver timer inside Server::run() and between runs; the peer verifies the byte stream position by position",
+    "level_text": "three Server clients per case - paired ones, in 12% of the cases the last one is a TCP connection accepted through a listener whose onAccepted callback greets it with a write and / or suspends it; the harness owns send() on the server-side descriptors (--wrap=send) and applies a generated fault script (would-block, partial counts incl. 1-byte partials, full; adversarial shapes) on top of whatever the kernel does with a small send buffer, owns the clock and epoll_wait, and runs generated actions (writes of 1..5000 pattern bytes, suspend, resume, peer reads and writes, queries) from a 1 ms driver timer inside Server::run() and between runs; the peer verifies the byte stream position by position",
     "level_note": "trusted: the send / epoll_wait / clock_gettime wrappers in harness/srv_common.hpp, the pattern generator, the kernel's socketpair; the fault sequence is the generated dimension, the reported backlog is compared with (accepted bytes - bytes the kernel took) computed from the intercepted send log",
     "technique": "stateful property-based testing with injected send faults (fault sequence = generated input) and a byte-stream oracle at the peer",
-    "rule": "case = optional small kernel send buffer, a fault script of 0..2*size entries (shapes: mixture, would-block phase then full, 1-byte partials, alternating, large partials), 3..size actions (write, suspend, resume, peer reads/writes, queries, leaving run(), and arming the next onWrite / onRead callback of a client to perform a write itself). Oracle: bytes handed to the kernel are a prefix of the accepted stream and the peer finally receives exactly the accepted bytes in order; 'postponed' and getSendBufferSize() equal accepted minus handed; onWrite exactly once per drain and never with backlog; no onRead between suspend() and resume(); ASan. "
+    "rule": "case = optional small kernel send buffer, a fault script of 0..2*size entries (shapes: mixture, would-block phase then full, 1-byte partials, alternating, large partials), 3..size actions (write, suspend, resume, peer reads/writes, queries, leaving run(), and arming the next onWrite / onRead callback of a client to perform a write itself or to suspend the client). Nothing fails in these cases (no peer hangs up): a client that the server closes nevertheless is judged like every other - all accepted bytes have to arrive. Oracle: bytes handed to the kernel are a prefix of the accepted stream and the peer finally receives exactly the accepted bytes in order; 'postponed' and getSendBufferSize() equal accepted minus handed; onWrite exactly once per drain and never with backlog; no onRead between suspend() and resume(); ASan. "
             "Non-trivial = a partial send or would-block left a backlog, a further write happened while the backlog was non-empty, and the backlog drained (onWrite); distinct by case text hash.",
-    "assumptions": ["Client::write gets size >= 1", "the peer of a pair()ed client is a local stream socket"],
+    "assumptions": ["Client::write gets size >= 1", "the peer of a pair()ed client is a local stream socket", "data and acknowledgements of the loopback TCP connection arrive within 2 s of real time (the drain phase waits for them in real time, the loop itself runs in virtual time)"],
     "parts": [opf("server", ["harness/c13_server.cpp"], {"cases": 250000, "maxsize": 40}, {"cases": 5000000, "maxsize": 100, "workers": 16}, ldflags=SRV_WRAPS, deps=["harness/srv_common.hpp"]),
               rel(opf("server", ["harness/c13_server.cpp"], {"cases": 250000, "maxsize": 40}, {"cases": 5000000, "maxsize": 100, "workers": 16}, ldflags=SRV_WRAPS, deps=["harness/srv_common.hpp"], bin="C13_server"))],
 }
@@ -289,14 +289,15 @@ PROPS["C13"] = {
 PROPS["C14"] = {
     "level": "exploration",
     "engine": "opfuzz + vsched",
-    "level_text": "(loop) generated histories of creating and removing timers (intervals 1..50 ms, bursts created in the same virtual millisecond so that three and more due times coincide), paired clients, loopback listeners with incoming connections, establishers to a live listener and to a closed port, peer writes / closes, suspend / resume, client writes and interrupt(), executed between runs and - through a reaction script - from inside every kind of callback, including removal of the object whose callback is running and of objects with a pending event; the harness owns the clock and epoll_wait (virtual time, generated order and subsets of ready descriptors); (interrupt) a second part runs run() and interrupt() on two logical threads under the deterministic scheduler",
+    "level_text": "(loop) generated histories of creating and removing timers (intervals 1..50 ms, bursts created in the same virtual millisecond so that three and more due times coincide), paired clients, loopback listeners with incoming connections, establishers to a live listener and to a closed port, peer writes / closes, suspend / resume, client writes and interrupt(), executed between runs and - through a reaction script - from inside every kind of callback, including removal of the object whose callback is running and of objects with a pending event; the harness owns the clock and epoll_wait (virtual time, generated order and subsets of ready descriptors); (interrupt) a second part runs run() and interrupt() on two logical threads under the deterministic scheduler; (resolve) a third part creates establishers from a host name (resolved by a job of the worker pool, real threads, real time) and removes them before, while and after the look-up finishes, also from inside callbacks",
     "level_note": "trusted: the wrappers in harness/srv_common.hpp (virtual clock, epoll_wait with time-out 0 and idle hook), the timer / registration model in harness/c14_loop.cpp, the kernel's loopback sockets; 'eventually dispatched' is checked as 'before the loop goes idle' for socket-pair clients; accepted TCP connections are only checked for accept / removal behaviour",
     "technique": "stateful property-based testing with a reaction script executed inside callbacks, virtual time and generated readiness order; randomised deterministic scheduling for the interrupt race",
-    "rule": "loop: 3..size top-level ops (incl. 'run' for a generated virtual duration ended by a watchdog interrupt), 0..size reactions, 0..11 readiness permutations; one timer in eight has a handler that takes as long as its interval (it moves the virtual clock). Oracle: activation k of a timer at virtual time >= start + k*interval, at most once per k, activations in non-decreasing due order, no timer due when the loop goes idle and no sleep beyond a due time (both only for passes without a slow handler); no callback of any kind after remove() returned; onRead only when not suspended, a readable or peer-closed pair client is dispatched before the loop goes idle, a failed read/write is followed by onClosed, onClosed only after a failure, establishers notified exactly once with the right kind; run() returns only after interrupt(), within 300 poll rounds and 100000 callbacks of it. "
-            "Non-trivial = (>=3 coinciding due times AND a removal among them) OR a removal of an object with a pending event OR a timer removing itself from its callback together with other actions inside callbacks; interrupt part: case = 1-3 runs, delays before each run and each interrupt, duplicate interrupts, optional timer; 10 schedules per case; oracle: every run() returns after its interrupt, less than 290 s of virtual time later (not by the default time-out), no deadlock; non-trivial = a schedule with >=4 context switches (interrupt while the loop polls) or an interrupt issued before run() started; distinct by case text hash.",
+    "rule": "loop: 3..size top-level ops (incl. 'run' for a generated virtual duration ended by a watchdog interrupt), 0..size reactions, 0..11 readiness permutations; one timer in eight has a handler that takes as long as its interval (it moves the virtual clock). Oracle: activation k of a timer at virtual time >= start + k*interval, at most once per k, activations in non-decreasing due order, no timer due when the loop goes idle and no sleep beyond a due time (both only for passes without a slow handler); no callback of any kind after remove() returned; onRead only when not suspended, a readable or peer-closed pair client is dispatched before the loop goes idle, a failed read/write is followed by onClosed, onClosed only after a failure, a paired client with a send backlog (writes taken only partly, or refused, by generated send outcomes; also on suspended clients and from inside onWrite) is sent to and gets onWrite before the loop goes idle, onWrite only after a backlog and with an empty send buffer, several clients failing in the same moment with one of them removed before its onClosed, establishers notified exactly once with the right kind; run() returns only after interrupt(), within 300 poll rounds and 100000 callbacks of it. "
+            "Non-trivial = (>=3 coinciding due times AND a removal among them) OR a removal of an object with a pending event OR a timer removing itself from its callback together with other actions inside callbacks; resolve part: case = up to 14 actions (establisher from the name 'localhost' to a listening or to a bound but not listening port, remove, run the loop for 1-4 ms, wait 0-1 ms) and up to 3 reactions inside callbacks; oracle: at most one notification per establisher, of the right kind, none after remove() returned, every remaining establisher notified within 6 s of running the loop; a failure is replayed up to 30 times (timing decides whether a case reaches the state), reproduced at least once = violation; interrupt part: case = 1-3 runs, delays before each run and each interrupt, duplicate interrupts, optional timer; 10 schedules per case; oracle: every run() returns after its interrupt, less than 290 s of virtual time later (not by the default time-out), no deadlock; non-trivial = a schedule with >=4 context switches (interrupt while the loop polls) or an interrupt issued before run() started; distinct by case text hash.",
     "assumptions": ["Server::time gets interval >= 1", "Server objects are used from the loop thread; only interrupt() is called from another thread"],
     "parts": [opf("loop", ["harness/c14_loop.cpp"], {"cases": 150000, "maxsize": 40}, {"cases": 1500000, "maxsize": 80, "workers": 16}, ldflags=SRV_WRAPS, deps=["harness/srv_common.hpp"]),
               rel(opf("loop", ["harness/c14_loop.cpp"], {"cases": 150000, "maxsize": 40}, {"cases": 1500000, "maxsize": 80, "workers": 16}, ldflags=SRV_WRAPS, deps=["harness/srv_common.hpp"], bin="C14_loop")),
+              opf("resolve", ["harness/c14_resolve.cpp"], {"cases": 4000, "maxsize": 12, "workers": 8}, {"cases": 60000, "maxsize": 12, "workers": 16}, timing=True),
               opf("interrupt", ["harness/c14_interrupt.cpp"], {"cases": 1500, "maxsize": 4}, {"cases": 20000, "maxsize": 4, "workers": 16}, flavour="sched", wraps=["epoll_wait", "write", "eventfd_write", "send"], plain_sources=["vsched/rt_io.cpp"], deps=["harness/vs_common.hpp"])],
 }
 
